@@ -6,7 +6,11 @@
 (* run time.  Behaviours are Nest(slot)* followed by Place(form): TLC       *)
 (* enumerates every position up to MaxDepth x every import form, checks     *)
 (* that what the statement names is independent of the stack, and (EMIT)    *)
-(* prints each <<position, form>> for replay through real source files.     *)
+(* prints each <<position, form, layout>> for replay through real source    *)
+(* files.  The layout (Scan.tla: lay) is the third dimension: the same       *)
+(* statement on its own line, behind a semicolon, on the header line of its  *)
+(* compound statement, in parentheses over several lines, or continued with  *)
+(* a backslash.                                                              *)
 (***************************************************************************)
 EXTENDS Scan, TLC, Json
 
@@ -14,13 +18,19 @@ CONSTANTS Slots, MaxDepth, EMIT
 
 Forms == {"plain", "aliased", "multi", "from_name", "from_submodule", "star", "rel1", "rel2", "rel_pkg"}
 
-VARIABLES stack, placed
-vars == <<stack, placed>>
-Init == stack = <<>> /\ placed = "none"
-Nest(s)  == placed = "none" /\ Len(stack) < MaxDepth /\ stack' = Append(stack, s) /\ UNCHANGED placed
-Place(f) == placed = "none" /\ placed' = f /\ UNCHANGED stack
+Layouts == {"line", "semicolon", "inline", "paren", "backslash"}
+\* parentheses exist only around the name list of a from-import; 'inline' needs a compound statement to sit in
+LayoutOK(f, y, st) == /\ (y = "paren" => f \in {"from_name", "from_submodule", "rel1", "rel2", "rel_pkg"})
+                      /\ (y = "inline" => st # <<>>)
+
+VARIABLES stack, placed, layout
+vars == <<stack, placed, layout>>
+Init == stack = <<>> /\ placed = "none" /\ layout = "line"
+Nest(s)  == placed = "none" /\ Len(stack) < MaxDepth /\ stack' = Append(stack, s) /\ UNCHANGED <<placed, layout>>
+Place(f, y) == placed = "none" /\ placed' = f /\ layout' = y /\ UNCHANGED stack
+          /\ LayoutOK(f, y, stack)
           /\ (f = "star" => stack = <<>>)              \* 'import *' is only legal at module level
-Next == (\E s \in Slots : Nest(s)) \/ (\E f \in Forms : Place(f))
+Next == (\E s \in Slots : Nest(s)) \/ (\E f \in Forms, y \in Layouts : Place(f, y))
 Spec == Init /\ [][Next]_vars
 
 \* a fixed small project: importer r.p.q.src, targets r.p.t (sibling), r.u.t (other package), package r.p.q
@@ -29,14 +39,14 @@ Proj == [dirs  |-> {<<"r">>, <<"r","p">>, <<"r","p","q">>, <<"r","u">>},
          files |-> {[name |-> n, py |-> TRUE] : n \in {F, <<"r","p","t">>, <<"r","u","t">>, <<"r","p","q","t">>}},
          stmts |-> {}]
 C == [mpath |-> <<"r">>, excluded |-> {}, limit |-> 0, ext |-> FALSE, extexcl |-> {}]
-Stmt(f, pos) ==
-    CASE f \in {"plain", "aliased", "multi"} -> [file |-> F, form |-> "import", level |-> 0, module |-> <<"r","u","t">>, names |-> <<>>, pos |-> pos]
-      [] f = "from_name"      -> [file |-> F, form |-> "from", level |-> 0, module |-> <<"r","u">>, names |-> <<"t">>, pos |-> pos]
-      [] f = "from_submodule" -> [file |-> F, form |-> "from", level |-> 0, module |-> <<"r","u","t">>, names |-> <<"helper">>, pos |-> pos]
-      [] f = "star"           -> [file |-> F, form |-> "from", level |-> 0, module |-> <<"r","u","t">>, names |-> <<"*">>, pos |-> pos]
-      [] f = "rel1"           -> [file |-> F, form |-> "from", level |-> 1, module |-> <<>>, names |-> <<"t">>, pos |-> pos]
-      [] f = "rel2"           -> [file |-> F, form |-> "from", level |-> 2, module |-> <<>>, names |-> <<"t">>, pos |-> pos]
-      [] f = "rel_pkg"        -> [file |-> F, form |-> "from", level |-> 3, module |-> <<"u">>, names |-> <<"t">>, pos |-> pos]
+Stmt(f, pos, y) ==
+    CASE f \in {"plain", "aliased", "multi"} -> [file |-> F, form |-> "import", level |-> 0, module |-> <<"r","u","t">>, names |-> <<>>, pos |-> pos, lay |-> y]
+      [] f = "from_name"      -> [file |-> F, form |-> "from", level |-> 0, module |-> <<"r","u">>, names |-> <<"t">>, pos |-> pos, lay |-> y]
+      [] f = "from_submodule" -> [file |-> F, form |-> "from", level |-> 0, module |-> <<"r","u","t">>, names |-> <<"helper">>, pos |-> pos, lay |-> y]
+      [] f = "star"           -> [file |-> F, form |-> "from", level |-> 0, module |-> <<"r","u","t">>, names |-> <<"*">>, pos |-> pos, lay |-> y]
+      [] f = "rel1"           -> [file |-> F, form |-> "from", level |-> 1, module |-> <<>>, names |-> <<"t">>, pos |-> pos, lay |-> y]
+      [] f = "rel2"           -> [file |-> F, form |-> "from", level |-> 2, module |-> <<>>, names |-> <<"t">>, pos |-> pos, lay |-> y]
+      [] f = "rel_pkg"        -> [file |-> F, form |-> "from", level |-> 3, module |-> <<"u">>, names |-> <<"t">>, pos |-> pos, lay |-> y]
 
 Expected(f) == CASE f \in {"plain", "aliased", "multi", "from_name", "from_submodule", "star", "rel_pkg"} -> <<"r","u","t">>
                  [] f = "rel1" -> <<"r","p","q","t">>
@@ -45,9 +55,9 @@ Expected(f) == CASE f \in {"plain", "aliased", "multi", "from_name", "from_submo
 \* what a statement names does not depend on where it stands, and is the module its form says
 PositionIndependent ==
     placed # "none" =>
-        /\ Named(Proj, C, Stmt(placed, stack)) = Named(Proj, C, Stmt(placed, <<>>))
-        /\ Named(Proj, C, Stmt(placed, stack)).must = {Expected(placed)}
-        /\ LET P2 == [Proj EXCEPT !.stmts = {Stmt(placed, stack)}] IN MustImports(P2, C) = {<<F, Expected(placed)>>}
+        /\ Named(Proj, C, Stmt(placed, stack, layout)) = Named(Proj, C, Stmt(placed, <<>>, "line"))
+        /\ Named(Proj, C, Stmt(placed, stack, layout)).must = {Expected(placed)}
+        /\ LET P2 == [Proj EXCEPT !.stmts = {Stmt(placed, stack, layout)}] IN MustImports(P2, C) = {<<F, Expected(placed)>>}
 SlotsUsed == TRUE
-EmitPosition == (EMIT /\ placed # "none") => PrintT("POS " \o ToJson([pos |-> stack, form |-> placed]))
+EmitPosition == (EMIT /\ placed # "none") => PrintT("POS " \o ToJson([pos |-> stack, form |-> placed, lay |-> layout]))
 =============================================================================
